@@ -478,13 +478,13 @@ Section Engine.
       | PStutter pattern count count_current pos v =>
           match cmp OGe (VInt pos) count_current with       (* if self.pos >= self.count_current: *)
           | Yield true =>
-              let '(oc, count') := value f count in         (* self.count_current = Pattern.value(self.count) *)
+              let '(oc, count') := value f count in         (* count = Pattern.value(self.count) *)
               match oc with
               | Yield cc =>
                   let '(o, pattern') := anext f pattern in  (* self.value = next(self.pattern) *)
                   match o with
                   | Yield v' => (Yield v', PStutter pattern' count' cc 1 v')     (* self.pos = 0; self.pos += 1 *)
-                  | _ => (o, PStutter pattern' count' cc pos v)
+                  | _ => (o, PStutter pattern' count' count_current pos v)      (* repaired (C09): the count is committed only with a new value *)
                   end
               | _ => (oc, PStutter pattern count' count_current pos v)
               end
